@@ -354,6 +354,14 @@ func (e *Env) ident(name string) TV {
 	case "nil":
 		return TV{V: NilErr, Untyped: true}
 	}
+	if strings.HasPrefix(name, "ghost_") {
+		if e.st != nil {
+			if g, ok := e.st.ghost[name[6:]]; ok {
+				return TV{V: g}
+			}
+		}
+		return TV{V: NilErr}
+	}
 	if ld, ok := e.lets[name]; ok && len(ld.Params) == 0 {
 		if e.depth > 50 {
 			e.fail("let recursion")
@@ -527,6 +535,14 @@ func (e *Env) refEq(a, b TV) (*Term, bool) {
 	if isNilLit(a) && !isNilLit(b) {
 		return e.refEq(b, a)
 	}
+	if as, ok := a.V.(*StringV); ok {
+		if bs, ok := b.V.(*StringV); ok {
+			if as.Reg == bs.Reg {
+				return And(Eq(as.Off, bs.Off), Eq(as.Len, bs.Len)), true
+			}
+			return Fresh("streq", BoolSort), true
+		}
+	}
 	return nil, false
 }
 
@@ -592,6 +608,36 @@ func (e *Env) call(n *ast.CallExpr) TV {
 		v := e.eval(n.Args[0])
 		return TV{V: Resize(v.V.(*Term), 128, true), Signed: true}
 	}
+	switch id.Name {
+	case "rok", "rval", "rp":
+		// result functions of a deterministic reader: rok(F, data), rval(F, data), rp(F, data)
+		fid, ok := n.Args[0].(*ast.Ident)
+		if !ok || len(n.Args) != 2 {
+			return e.fail("%s(F, data) expects a function name and a slice", id.Name)
+		}
+		sv, ok := e.eval(n.Args[1]).V.(*SliceV)
+		if !ok {
+			return e.fail("%s: second argument must be a slice", id.Name)
+		}
+		arr := e.ex.load(e.st, Place{Root: sv.Reg}).(*ArrayV).Arr
+		switch id.Name {
+		case "rok":
+			return TV{V: App("rok."+fid.Name, BoolSort, arr, sv.Off, sv.Len)}
+		case "rp":
+			return TV{V: App("rp."+fid.Name, BV(64), arr, sv.Off, sv.Len), Signed: true}
+		default:
+			f := e.ex.eng.lookupFunc(e.ex.fn.Pkg.Pkg.Name() + "." + fid.Name)
+			if f == nil || f.Signature.Results().Len() == 0 {
+				return e.fail("rval: unknown function %s", fid.Name)
+			}
+			rt := f.Signature.Results().At(0).Type()
+			so := sortOf(rt)
+			if so == nil {
+				return e.fail("rval: %s does not return a scalar", fid.Name)
+			}
+			return TV{V: App("rval."+fid.Name, so, arr, sv.Off, sv.Len), Signed: isSigned(rt)}
+		}
+	}
 	if ld, ok := e.lets[id.Name]; ok && len(ld.Params) == len(n.Args) && len(ld.Params) > 0 {
 		if e.depth > 50 {
 			e.fail("let recursion")
@@ -651,6 +697,52 @@ func byteRange(b *Term, lo, hi int) *Term {
 func init() {
 	specFns["ws"] = func(e *Env, a []TV, n *ast.CallExpr) TV {
 		return TV{V: byteIn(argByte(e, a[0], n), ' ', '\t', '\r', '\n')}
+	}
+	specFns["storedconst"] = func(e *Env, a []TV, n *ast.CallExpr) TV {
+		x := Resize(argTerm(e, a[0], n), 64, true)
+		var ds []*Term
+		for _, k := range e.ex.storedConsts() {
+			ds = append(ds, Eq(x, I64(k)))
+		}
+		return TV{V: Or(ds...)}
+	}
+	specFns["retmain"] = func(e *Env, a []TV, n *ast.CallExpr) TV {
+		x := Resize(argTerm(e, a[0], n), 64, true)
+		var ds []*Term
+		for _, k := range e.ex.storedConsts() {
+			if e.ex.retMain[k] {
+				ds = append(ds, Eq(x, I64(k)))
+			}
+		}
+		return TV{V: Or(ds...)}
+	}
+	specFns["retsub"] = func(e *Env, a []TV, n *ast.CallExpr) TV {
+		x := Resize(argTerm(e, a[0], n), 64, true)
+		var ds []*Term
+		for _, k := range e.ex.storedConsts() {
+			if e.ex.retSub[k] {
+				ds = append(ds, Eq(x, I64(k)))
+			}
+		}
+		return TV{V: Or(ds...)}
+	}
+	specFns["tokclass"] = func(e *Env, a []TV, n *ast.CallExpr) TV {
+		// RFC 8259 token classes, numbered as the TokenType constants are declared
+		b := argByte(e, a[0], n)
+		res := BVI(8, 0)
+		set := func(cond *Term, v int64) { res = Ite(cond, BVI(8, v), res) }
+		set(byteIn(b, 'n'), 1)
+		set(byteIn(b, '"'), 2)
+		set(Or(byteRange(b, '0', '9'), byteIn(b, '-')), 3)
+		set(byteIn(b, 't'), 4)
+		set(byteIn(b, 'f'), 5)
+		set(byteIn(b, '{'), 6)
+		set(byteIn(b, '}'), 7)
+		set(byteIn(b, '['), 8)
+		set(byteIn(b, ']'), 9)
+		set(byteIn(b, ','), 10)
+		set(byteIn(b, ':'), 11)
+		return TV{V: res}
 	}
 	specFns["digit"] = func(e *Env, a []TV, n *ast.CallExpr) TV {
 		return TV{V: byteRange(argByte(e, a[0], n), '0', '9')}
